@@ -25,7 +25,7 @@ import (
 // the harness owns the schedule: command A runs in its own goroutine and is SUSPENDED just before its
 // k-th stripe-lock event (hook H2 is called before every Lock/UnLock/RLock/RUnLock); while it is
 // suspended another command runs to completion (or, when it needs a lock that A holds, until A is
-// resumed 25 ms later); then A goes on, possibly to a second suspension. Every place at which A takes
+// resumed 10 ms later); then A goes on, possibly to a second suspension. Every place at which A takes
 // or gives up a lock is reachable this way, deterministically, for every k.
 //
 // Oracle (serial equivalence): A, B (and C) are single-key commands or MSET/RENAME/LMOVE/SMOVE, which the
@@ -74,11 +74,39 @@ func genSchedCmd(t *rapid.T, tag string, first bool, near []string) kit.Cmd {
 	set := func(l string) string { return pick(l, "s1", "s2") }
 	anyk := func(l string) string { return pick(l, schedKeys...) }
 	side := func(l string) string { return gen.Pick(t, l, "LEFT", "RIGHT") }
-	w := []int{6, 5, 5, 4, 4, 8}
+	w := []int{6, 5, 5, 4, 4, 8, 4}
 	if !first {
-		w = []int{7, 3, 3, 3, 0, 10}
+		w = []int{7, 3, 3, 3, 0, 10, 5}
+		if schedDeadlines {
+			w = []int{3, 1, 1, 2, 0, 5, 12} // the suspended command deals with a deadline: so does this one, mostly
+		}
+	}
+	if schedFast && first {
+		w = []int{3, 2, 2, 2, 0, 17, 5} // mostly single-key commands; no pop that waits (it costs 100 ms and more)
 	}
 	switch gen.Weighted(t, "kind", w) {
+	case 6:
+		// commands that set, keep, replace or drop a deadline, and the ones that remove or read the key
+		switch rapid.IntRange(0, 8).Draw(t, "dl") {
+		case 0:
+			return kit.MkCmd("SETEX", str("k"), "500000", tag)
+		case 1:
+			return kit.MkCmd("SET", str("k"), tag, "KEEPTTL")
+		case 2:
+			return kit.MkCmd("SET", str("k"), tag, "EX", "500000")
+		case 3:
+			return kit.MkCmd("EXPIRE", anyk("k"), "300000")
+		case 4:
+			return kit.MkCmd("EXPIRE", anyk("k"), "300000", gen.Pick(t, "eopt", "NX", "XX", "GT", "LT"))
+		case 5:
+			return kit.MkCmd("PERSIST", anyk("k"))
+		case 6:
+			return kit.MkCmd("DEL", anyk("k"))
+		case 7:
+			return kit.MkCmd("DEL", anyk("k"), anyk("k2"))
+		default:
+			return kit.MkCmd("GET", str("k"))
+		}
 	case 0:
 		src := anyk("rsrc")
 		dst := gen.Pick(t, "rdst", schedKeys...)
@@ -109,7 +137,31 @@ func genSchedCmd(t *rapid.T, tag string, first bool, near []string) kit.Cmd {
 		// a pop that waits: it polls (first look after 100 ms), gives the lock up between polls
 		return kit.MkCmd(gen.Pick(t, "bp", "BLPOP", "BRPOP"), lst("bk"), "1")
 	}
-	switch rapid.IntRange(0, 34).Draw(t, "single") {
+	switch rapid.IntRange(0, 46).Draw(t, "single") {
+	case 40:
+		return kit.MkCmd("DEL", anyk("k"), anyk("k2"))
+	case 41:
+		return kit.MkCmd("EXISTS", anyk("k"), anyk("k2"))
+	case 42:
+		return kit.MkCmd("SETEX", str("k"), "500000", tag)
+	case 43:
+		return kit.MkCmd("SET", str("k"), tag, "KEEPTTL")
+	case 44:
+		return kit.MkCmd("SET", str("k"), tag, "EX", "500000")
+	case 45:
+		return kit.MkCmd("EXPIRE", anyk("k"), "300000", gen.Pick(t, "eopt", "NX", "XX", "GT", "LT"))
+	case 46:
+		return kit.MkCmd("DEL", anyk("k"), anyk("k2"), anyk("k3"))
+	case 35:
+		return kit.MkCmd("HMGET", "h1", "f", "g")
+	case 36:
+		return kit.MkCmd("RPUSHX", lst("k"), tag)
+	case 37:
+		return kit.MkCmd("GETRANGE", str("k"), "0", "-1")
+	case 38:
+		return kit.MkCmd("SETRANGE", str("k"), "1", tag)
+	case 39:
+		return kit.MkCmd("HSETNX", "h1", gen.Pick(t, "f", "f", "g"), tag)
 	case 28:
 		return kit.MkCmd("ZADD", "z1", gen.Pick(t, "sc", "1", "2", "3"), gen.Pick(t, "zm", "m", "n"))
 	case 29:
@@ -173,7 +225,7 @@ func genSchedCmd(t *rapid.T, tag string, first bool, near []string) kit.Cmd {
 	case 23:
 		return kit.MkCmd("PERSIST", anyk("k"))
 	case 24:
-		return kit.MkCmd("EXPIRE", anyk("k"), "100000")
+		return kit.MkCmd("EXPIRE", anyk("k"), "300000")
 	case 25:
 		return kit.MkCmd("STRLEN", str("k"))
 	case 26:
@@ -181,6 +233,20 @@ func genSchedCmd(t *rapid.T, tag string, first bool, near []string) kit.Cmd {
 	default:
 		return kit.MkCmd("LSET", lst("k"), "0", tag)
 	}
+}
+
+// schedFast: the generator of the fast sub-check leaves out what makes a case slow (pops that wait, keys
+// that must first run past their deadline) and draws mostly single-key commands as the suspended one.
+var schedFast bool
+
+// schedDeadlines: set while the commands that run meanwhile are drawn, when the suspended command sets, keeps or
+// drops a deadline or removes its key, or when there are keys past their deadline.
+var schedDeadlines bool
+
+func genSchedFast(t *rapid.T) SchedCase {
+	schedFast = true
+	defer func() { schedFast = false }()
+	return genSched(t)
 }
 
 func genSched(t *rapid.T) SchedCase {
@@ -214,20 +280,40 @@ func genSched(t *rapid.T) SchedCase {
 	if rapid.Bool().Draw(t, "has-x1") {
 		c.Pre = append(c.Pre, kit.MkCmd("XADD", "x1", "1-1", "f", "0"))
 	}
-	if rapid.IntRange(0, 3).Draw(t, "with-expired") == 0 {
+	// deadlines far away (the prologue's are 100000 s, the commands' 300000 and 500000 s: the final read tells
+	// them apart and none of them comes near during a case)
+	for _, k := range schedKeys {
+		if rapid.IntRange(0, 3).Draw(t, "vol-"+k) == 0 {
+			c.Pre = append(c.Pre, kit.MkCmd("EXPIRE", k, "100000"))
+		}
+	}
+	if !schedFast && rapid.IntRange(0, 3).Draw(t, "with-expired") == 0 {
 		for _, k := range schedKeys {
 			if rapid.IntRange(0, 2).Draw(t, "exp-"+k) == 0 {
 				c.Expired = append(c.Expired, k)
 			}
 		}
 	}
-	c.A = genSchedCmd(t, "A", true, nil)
+	c.A = genSchedCmd(t, "A", true, c.Expired) // (keys past their deadline preferred: CheckTTL then takes its lock)
+	schedDeadlines = len(c.Expired) > 0
+	switch strings.ToUpper(string(c.A[0])) {
+	case "SETEX", "EXPIRE", "PERSIST", "DEL":
+		schedDeadlines = true
+	case "SET":
+		schedDeadlines = len(c.A) > 3
+	}
+	defer func() { schedDeadlines = false }()
 	var near []string
 	for _, a := range c.A[1:] {
 		for _, k := range schedKeys {
 			if string(a) == k {
 				near = append(near, k)
 			}
+		}
+	}
+	if schedDeadlines && rapid.Bool().Draw(t, "volatile-near") {
+		for _, k := range near {
+			c.Pre = append(c.Pre, kit.MkCmd("EXPIRE", k, "100000"))
 		}
 	}
 	np := rapid.SampledFrom([]int{1, 1, 2}).Draw(t, "pauses")
@@ -257,8 +343,67 @@ func init() {
 
 type schedOp struct {
 	cmd       kit.Cmd
+	atoms     []kit.Cmd
 	call, ret int64
 	reply     string
+}
+
+func atomsOf(cmd kit.Cmd) []kit.Cmd {
+	if n := strings.ToUpper(string(cmd[0])); (n == "DEL" || n == "EXISTS") && len(cmd) > 2 {
+		var out []kit.Cmd
+		for _, k := range cmd[1:] {
+			out = append(out, kit.MkCmd(n, string(k)))
+		}
+		return out
+	}
+	return []kit.Cmd{cmd}
+}
+
+// interleavings lists every sequence of (op, atom) that keeps the atoms of one op in order and keeps an op
+// that had returned before another was called entirely in front of it.
+func interleavings(ops []*schedOp) [][][2]int {
+	var out [][][2]int
+	next := make([]int, len(ops))
+	var cur [][2]int
+	total := 0
+	for _, op := range ops {
+		total += len(op.atoms)
+	}
+	var rec func()
+	rec = func() {
+		if len(cur) == total {
+			first, last := make([]int, len(ops)), make([]int, len(ops))
+			for i := range first {
+				first[i] = -1
+			}
+			for p, st := range cur {
+				if first[st[0]] < 0 {
+					first[st[0]] = p
+				}
+				last[st[0]] = p
+			}
+			for i := range ops {
+				for j := range ops {
+					if ops[i].ret < ops[j].call && last[i] > first[j] {
+						return
+					}
+				}
+			}
+			out = append(out, append([][2]int(nil), cur...))
+			return
+		}
+		for i := range ops {
+			if next[i] < len(ops[i].atoms) {
+				cur = append(cur, [2]int{i, next[i]})
+				next[i]++
+				rec()
+				next[i]--
+				cur = cur[:len(cur)-1]
+			}
+		}
+	}
+	rec()
+	return out
 }
 
 func canonSched(cmd kit.Cmd, v respx.Value) string {
@@ -342,6 +487,8 @@ func schedDump(db *inproc.DB) (string, string) {
 		}
 		ttl := do("TTL", k)
 		switch {
+		case ttl.Kind == ':' && ttl.Int > 1000:
+			fmt.Fprintf(&sb, " ttl~%d00000s", (ttl.Int+50000)/100000)
 		case ttl.Kind == ':' && ttl.Int >= 0:
 			sb.WriteString(" ttl")
 		default:
@@ -358,20 +505,35 @@ func schedDump(db *inproc.DB) (string, string) {
 
 func execSched(c SchedCase) kit.Outcome {
 	o := kit.Outcome{}
-	nserial := 2
-	if len(c.Pauses) == 2 {
-		nserial = 6
+	nserial := 1 // number of serial orders = T! / prod(atoms_i!)
+	{
+		t := 0
+		cmds := []kit.Cmd{c.A}
+		for _, p := range c.Pauses {
+			cmds = append(cmds, p.Run)
+		}
+		for _, cmd := range cmds {
+			for k := 1; k <= len(atomsOf(cmd)); k++ {
+				t++
+				nserial = nserial * t / k
+			}
+		}
 	}
-	dbs, timersAt, bad := schedPrepare(c, 1+nserial)
+	lazy := len(c.Expired) == 0 // identical servers can be built when needed unless they have to pass a deadline together
+	nprep := 1 + nserial
+	if lazy {
+		nprep = 1
+	}
+	dbs, timersAt, bad := schedPrepare(c, nprep)
 	if bad != "" {
 		o.Inconclusive = true
 		return o
 	}
 	db := dbs[0]
 	ops := make([]*schedOp, 1+len(c.Pauses))
-	ops[0] = &schedOp{cmd: c.A}
+	ops[0] = &schedOp{cmd: c.A, atoms: atomsOf(c.A)}
 	for i, p := range c.Pauses {
-		ops[i+1] = &schedOp{cmd: p.Run}
+		ops[i+1] = &schedOp{cmd: p.Run, atoms: atomsOf(p.Run)}
 	}
 	var clock int64
 	var wg sync.WaitGroup
@@ -404,7 +566,7 @@ func execSched(c SchedCase) kit.Outcome {
 				go run(ops[i+1], done)
 				select {
 				case <-done:
-				case <-time.After(25 * time.Millisecond):
+				case <-time.After(10 * time.Millisecond):
 					blocked++ // it waits for a lock A holds (or it is a pop that waits): A goes on, they finish side by side
 				}
 			}
@@ -451,47 +613,54 @@ func execSched(c SchedCase) kit.Outcome {
 		o.Fail = "structural self-check after the schedule: " + broken
 		return o
 	}
-	// serial runs: every order of the commands that respects real time
-	idx := make([]int, len(ops))
-	for i := range idx {
-		idx[i] = i
-	}
+	// serial runs: every order of the commands that respects real time. A DEL or EXISTS over several keys
+	// is not claimed atomic as a whole: it counts as one atom per key, in the order of its arguments, its
+	// reply being the sum (every key by itself is still removed or counted at one instant).
 	var tried []string
 	ok := false
-	permute(idx, func(order []int) {
-		if ok {
-			return
-		}
-		pos := make([]int, len(order))
-		for p, i := range order {
-			pos[i] = p
-		}
-		for i := range ops {
-			for j := range ops {
-				if ops[i].ret < ops[j].call && pos[i] > pos[j] {
-					return // i had finished before j began
-				}
-			}
+	seqs := interleavings(ops)
+	for _, seq := range seqs {
+		if nserial == 0 {
+			break
 		}
 		nserial--
-		sdb := dbs[1+nserial]
-		same := true
+		var sdb *inproc.DB
+		if lazy {
+			one, _, bad := schedPrepare(c, 1)
+			if bad != "" {
+				break
+			}
+			sdb = one[0]
+		} else {
+			sdb = dbs[1+nserial]
+		}
+		sums := make([]int64, len(ops))
+		reps := make([]string, len(ops))
 		var desc []string
-		for _, i := range order {
-			r := sdb.Do(ops[i].cmd.Bytes())
-			rep := canonSched(ops[i].cmd, r.Val)
-			desc = append(desc, fmt.Sprintf("%s -> %s", ops[i].cmd.String(), rep))
-			if rep != ops[i].reply {
+		for _, st := range seq {
+			at := ops[st[0]].atoms[st[1]]
+			r := sdb.Do(at.Bytes())
+			rep := canonSched(at, r.Val)
+			desc = append(desc, fmt.Sprintf("%s -> %s", at.String(), rep))
+			if len(ops[st[0]].atoms) > 1 {
+				sums[st[0]] += r.Val.Int
+				rep = fmt.Sprintf(":%d", sums[st[0]])
+			}
+			reps[st[0]] = rep
+		}
+		same := true
+		for i := range ops {
+			if reps[i] != ops[i].reply {
 				same = false
 			}
 		}
 		sd, _ := schedDump(sdb)
 		if same && sd == got {
 			ok = true
-			return
+			break
 		}
 		tried = append(tried, strings.Join(desc, " ; ")+" ; final "+sd)
-	})
+	}
 	if !ok && !timersAt.IsZero() && time.Now().After(timersAt.Add(-30*time.Millisecond)) {
 		// the runs were to happen while the keys are past their deadline but still stored; they took longer
 		// (a pop that waited): the timers have removed the keys in the middle of it, nothing is concluded
@@ -531,6 +700,12 @@ func permute(xs []int, f func([]int)) {
 		}
 	}
 	rec(0)
+}
+
+// TestSchedulesFast: the same oracle over many more, cheap cases (a case costs about a millisecond unless the
+// command run meanwhile has to wait for the suspended one).
+func TestSchedulesFast(t *testing.T) {
+	kit.Check(t, kit.Spec[SchedCase]{Sub: "sched", Quick: 5000, Thorough: 40000, Gen: genSchedFast, Exec: execSched, TrackCase: true})
 }
 
 func TestSchedules(t *testing.T) {
